@@ -31,6 +31,8 @@ type Group struct {
 	ResetStub      bool
 	Unwind         int
 	Corpus         bool // the package is generated at check time by the corpus pipeline
+	ExtraRT        string // additional runtime template pair (sym_X / native_X)
+	FmParams       string // protoc-gen-fastmarshal parameters for corpus groups
 }
 
 type PropSpec struct {
@@ -52,6 +54,14 @@ var groups = map[string]*Group{
 		Targets: []string{csprotoPath}, Merge: pureMerge, StubPkgs: runtimeStubPkgs, Unwind: 200},
 }
 
+func init() {
+	for _, pkg := range []string{"p3", "p2"} {
+		groups[pkg] = &Group{Name: pkg, Corpus: true, Pkg: "./" + pkg, PkgName: pkg, Targets: []string{csprotoPath},
+			Merge: pureMerge, StubPkgs: runtimeStubPkgs, SkipTargetInit: true, ResetStub: true, Unwind: 300, ExtraRT: "pb",
+			FmParams: "paths=source_relative,apiversion=v2"}
+	}
+}
+
 var props = map[string]*PropSpec{}
 
 func regProp(p *PropSpec) { props[p.ID] = p }
@@ -61,6 +71,9 @@ func init() {
 	regProp(&PropSpec{ID: "C02", Level: "model_checking", Groups: []string{"csproto"}, QuickTimeout: 600, ThorTimeout: 3000})
 	regProp(&PropSpec{ID: "C03", Level: "model_checking", Groups: []string{"csproto"}, QuickTimeout: 600, ThorTimeout: 3000})
 	regProp(&PropSpec{ID: "C19", Level: "model_checking", Groups: []string{"csproto"}, QuickTimeout: 600, ThorTimeout: 3000})
+	for _, id := range []string{"C04", "C05", "C06", "C07", "C08", "C09", "C10", "C17"} {
+		regProp(&PropSpec{ID: id, Level: "model_checking", Groups: []string{"p3", "p2"}, QuickTimeout: 600, ThorTimeout: 3000})
+	}
 	regProp(&PropSpec{ID: "C13", Level: "model_checking", Groups: []string{"lazyproto"}, QuickTimeout: 600, ThorTimeout: 3000})
 	regProp(&PropSpec{ID: "C15", Level: "other", Groups: []string{"lazyproto"}, QuickTimeout: 600, ThorTimeout: 3000,
 		Explanation: "thread-modular ownership obligation decided on every feasible single-thread path by symbolic execution + SMT (no schedule is enumerated): after NewDecoder, objects reachable from the Decoder and all package variables are shared; no non-atomic, non-mutex write may target them; pooled results are owned by one goroutine between Get and Put. Isolation of simultaneously live results is checked on the single-thread projection of two goroutines under an adversarial pool model. Ownership violations are replayed as a goroutine workload under the Go race detector.",
